@@ -17,14 +17,28 @@ Proved here, for paths of any length over groups of any depth (`pathSum` = the f
                             the ScenarioError is a real cycle of connections whose accumulated delay is
                             all-zero (every stored delay is the sum along a real path: `Closure/Sound.lean`)
 
-NOT proved yet (see DESIGN.md): that the worklist reaches the minimum for every pop order and
-terminates within the fuel (`reject_complete`: no unresolved cycle is missed); this is
-decided by the correspondence (model = code for several pop orders) and by the graph-level
-specification monitor on the implementation.
+* `accept_complete`         no false acceptance: if, for whatever pop order, the worklist empties and the scenario is
+                            accepted, then no cycle of connections has an all-zero accumulated delay — for connection
+                            tables that are well-shaped, dict-like and `Uniform` (all paths between two simulators have
+                            one cutoff: exactly the complement of finding D7-reentrant-paths, where the delays are not
+                            totally ordered and the outcome depends on the pop order).  Proof: `Closure/Complete.lean`
+                            (the emptied worklist leaves a table closed under relaxation; by induction on a path the stored
+                            delay is at most the delay of every real path).
+* `cycle_check_exact`       both directions together: rejected ⟺ an unresolved cycle exists, whenever the check decides
+* `no_assertion_uniform`    on such tables no assert of the delay arithmetic can fire inside the check
+* `exact_of_checks`         the same from the three executable checks the driver evaluates on every generated graph
+                            (`w.cychyp`: `shapedB`, `nodupKeysB`, `constCutoffB`)
+
+NOT proved (see DESIGN.md): that the worklist empties within the model's fuel (termination of the worklist; in the
+D7 class it genuinely need not terminate) and completeness for grouped scenarios whose cutoffs differ between pairs but not
+between paths of one pair *as decided by an executable check* (`Uniform` itself is a hypothesis there); both are
+decided by the correspondence (model = code for several pop orders) and by the graph-level specification monitor on the
+implementation.
 -/
 import MosaikModel.Closure
 import MosaikProofs.Lemmas.Tiered
 import MosaikProofs.Closure.Sound
+import MosaikProofs.Closure.Complete
 namespace Mosaik.C06
 open Mosaik TI
 
@@ -200,6 +214,51 @@ theorem accepted_iff (n : Nat) (descs : Descs) :
 theorem reject_sound (sims : List SimCfg) (orc : List Nat) (p : List Sid) (h : ensureNoCycles sims orc = .cycle p) :
     ∃ s d, s < sims.length ∧ RealPath sims s s p d ∧ d.isZero = true :=
   Mosaik.reject_sound sims orc p h
+
+/-- **no false acceptance** (statement and proof: `Closure/Complete.lean`) -/
+theorem accept_complete (sims : List SimCfg) (orc : List Nat) (hS : Shaped sims) (hN : NodupKeys sims) (hU : Uniform sims)
+    (h : ensureNoCycles sims orc = .ok) : ∀ s p d, RealPath sims s s p d → d.isZero = false :=
+  Mosaik.accept_complete sims orc hS hN hU h
+
+/-- on well-shaped uniform tables no assert of the delay arithmetic fires inside the cycle check -/
+theorem no_assertion_uniform (sims : List SimCfg) (orc : List Nat) (hS : Shaped sims) (hU : Uniform sims) :
+    ensureNoCycles sims orc ≠ .error .assertion :=
+  Mosaik.no_assertion_uniform sims orc hS hU
+
+/-- **cycle detection is exact**: whenever the check decides (the worklist empties), it rejects exactly the scenarios that
+contain a cycle of connections whose accumulated delay is all-zero — for every pop order -/
+theorem cycle_check_exact (sims : List SimCfg) (orc : List Nat) (hS : Shaped sims) (hN : NodupKeys sims) (hU : Uniform sims)
+    (hdec : ∀ e, ensureNoCycles sims orc ≠ .error e) :
+    (∃ p, ensureNoCycles sims orc = .cycle p) ↔ ∃ s p d, RealPath sims s s p d ∧ d.isZero = true := by
+  constructor
+  · rintro ⟨p, hp⟩
+    obtain ⟨s, d, _, hreal, hz⟩ := reject_sound sims orc p hp
+    exact ⟨s, p, d, hreal, hz⟩
+  · rintro ⟨s, p, d, hreal, hz⟩
+    cases hres : ensureNoCycles sims orc with
+    | ok =>
+      have := accept_complete sims orc hS hN hU hres s p d hreal
+      rw [hz] at this
+      cases this
+    | cycle q => exact ⟨q, rfl⟩
+    | error e => exact absurd hres (hdec e)
+
+/-- the same from the executable checks (evaluated by the driver on every generated graph) -/
+theorem exact_of_checks (sims : List SimCfg) (orc : List Nat) (h1 : shapedB sims = true) (h2 : nodupKeysB sims = true)
+    (h3 : constCutoffB sims = true) (hfuel : ensureNoCycles sims orc ≠ .error .fuel) :
+    (∃ p, ensureNoCycles sims orc = .cycle p) ↔ ∃ s p d, RealPath sims s s p d ∧ d.isZero = true := by
+  have hS := shapedB_sound h1
+  have hU := constCutoffB_sound h3
+  apply cycle_check_exact sims orc hS (nodupKeysB_sound h2) hU
+  intro e
+  cases e with
+  | assertion => exact no_assertion_uniform sims orc hS hU
+  | fuel => exact hfuel
+
+/-- non-vacuity of the completeness direction: A → B plain, B → A time-shifted satisfies the three checks and is accepted -/
+example : let sims : List SimCfg := [{ inputDelays := [(1, ⟨1, 1, [1]⟩)] }, { inputDelays := [(0, ⟨1, 1, [0]⟩)] }]
+    shapedB sims = true ∧ nodupKeysB sims = true ∧ constCutoffB sims = true ∧ ensureNoCycles sims [] = .ok := by
+  decide
 
 /-- non-vacuity: two simulators feeding each other over plain connections are rejected, and the named cycle is real -/
 example : ensureNoCycles [{ inputDelays := [(1, ⟨1, 1, [0]⟩)] }, { inputDelays := [(0, ⟨1, 1, [0]⟩)] }] [] = .cycle [0, 1, 0] := by
